@@ -17,6 +17,7 @@
 #      orders are eq, cmp == 0 and hash the same; with two=1 swap(A,B) exchanges.
 # Mixed sizes: keys=int vals=blob (8/20 bytes, plain struct, every byte of every binding compared),
 #      keys=int vals=probe (8/24), keys=probe vals=int (24/8), keys=str vals=probe, keys=probe vals=blob.
+# cross=1: assign onto trees constructed/filled with other element types (one side shared); table=1: Tree := Table := A.
 # C12  failing operations as self-loops in every state: get/set/rem/mem with a wrong-typed
 #      key (ValueError|TypeError), set with a wrong-typed value, NULL key / NULL value
 #      (ValueError), rem of an absent key (KeyError), resize(1|len|len+7) (if it raises:
@@ -31,6 +32,12 @@ def T(name, variant, *args, **kw):
 PARTS = {
   'C05': {
     'quick': [
+      # cross-type assignment: the target's old contents (other element types, Probe on either side) finalised exactly once
+      T('cross-int-probe6x2', 'base', 'prop=C05', 'keys=int', 'vals=probe', 'nkeys=6', 'nvals=2', 'cross=1', 'table=1'),
+      T('cross-int-int6x2', 'base', 'prop=C05', 'keys=int', 'vals=int', 'nkeys=6', 'nvals=2', 'cross=1', 'table=1'),
+      T('cross-probe-blob5x2-asan', 'asan', 'prop=C05', 'keys=probe', 'vals=blob', 'nkeys=5', 'nvals=2', 'cross=1', 'table=1'),
+      T('cross-str-probe-two4', 'base', 'prop=C05', 'keys=str', 'vals=probe', 'two=1', 'nkeys=4', 'nvals=1', 'cross=1'),
+      T('cross-probe-int-two4-asan', 'asan', 'prop=C05', 'keys=probe', 'vals=int', 'two=1', 'nkeys=4', 'nvals=1', 'cross=1'),
       # Probe on one side only / value types of another size than the key type
       T('strkey-probeval6x2', 'base', 'prop=C05', 'keys=str', 'vals=probe', 'nkeys=6', 'nvals=2'),
       T('probekey-intval8', 'base', 'prop=C05', 'keys=probe', 'vals=int', 'nkeys=8', 'nvals=1', 'alias=1'),
@@ -48,6 +55,11 @@ PARTS = {
       T('intkey-probeval6', 'base', 'prop=C05', 'keys=int', 'vals=probe', 'nkeys=6', 'nvals=2'),
     ],
     'thorough': [
+      T('cross-int-probe8x2', 'base', 'prop=C05', 'keys=int', 'vals=probe', 'nkeys=8', 'nvals=2', 'cross=1', 'table=1'),
+      T('cross-int-int8x2', 'base', 'prop=C05', 'keys=int', 'vals=int', 'nkeys=8', 'nvals=2', 'cross=1', 'table=1'),
+      T('cross-probe-blob7x2-asan', 'asan', 'prop=C05', 'keys=probe', 'vals=blob', 'nkeys=7', 'nvals=2', 'cross=1', 'table=1'),
+      T('cross-str-probe-two6', 'base', 'prop=C05', 'keys=str', 'vals=probe', 'two=1', 'nkeys=6', 'nvals=1', 'cross=1'),
+      T('cross-probe-int-two5-asan', 'asan', 'prop=C05', 'keys=probe', 'vals=int', 'two=1', 'nkeys=5', 'nvals=1', 'cross=1'),
       T('strkey-probeval8x2', 'base', 'prop=C05', 'keys=str', 'vals=probe', 'nkeys=8', 'nvals=2'),
       T('probekey-intval11', 'base', 'prop=C05', 'keys=probe', 'vals=int', 'nkeys=11', 'nvals=1', 'alias=1'),
       T('probekey-intval7x2-asan', 'asan', 'prop=C05', 'keys=probe', 'vals=int', 'nkeys=7', 'nvals=2', 'alias=1'),
@@ -82,6 +94,8 @@ PARTS = {
   },
   'C10': {
     'quick': [
+      T('eqhash-cross-int-blob6x2', 'base', 'prop=C10', 'keys=int', 'vals=blob', 'nkeys=6', 'nvals=2', 'cross=1', 'table=1'),
+      T('eqhash-cross-int-int5x2-asan', 'asan', 'prop=C10', 'keys=int', 'vals=int', 'nkeys=5', 'nvals=2', 'cross=1', 'table=1'),
       # mixed key/value sizes: eq / hash / copy / assign / rebuild must survive every removal and copy path
       T('eqhash-int-blob6x2', 'base', 'prop=C10', 'keys=int', 'vals=blob', 'nkeys=6', 'nvals=2', 'alias=1'),
       T('eqhash-int-blob9', 'base', 'prop=C10', 'keys=int', 'vals=blob', 'nkeys=9', 'nvals=1'),
@@ -98,6 +112,8 @@ PARTS = {
       T('eqhash-int5x2-asan', 'asan', 'prop=C10', 'keys=int', 'nkeys=5', 'nvals=2'),
     ],
     'thorough': [
+      T('eqhash-cross-int-blob8x2', 'base', 'prop=C10', 'keys=int', 'vals=blob', 'nkeys=8', 'nvals=2', 'cross=1', 'table=1'),
+      T('eqhash-cross-int-int6x2-asan', 'asan', 'prop=C10', 'keys=int', 'vals=int', 'nkeys=6', 'nvals=2', 'cross=1', 'table=1'),
       T('eqhash-int-blob8x2', 'base', 'prop=C10', 'keys=int', 'vals=blob', 'nkeys=8', 'nvals=2', 'alias=1'),
       T('eqhash-int-blob11', 'base', 'prop=C10', 'keys=int', 'vals=blob', 'nkeys=11', 'nvals=1'),
       T('eqhash-int-blob6x2-asan', 'asan', 'prop=C10', 'keys=int', 'vals=blob', 'nkeys=6', 'nvals=2', 'alias=1'),
